@@ -34,16 +34,16 @@ claim("C17", "Totality of balance/amount arithmetic by interval + octagon abstra
 claim("C04", "Completeness identities for establish and pay (verifier acceptance of the honest provers' output terms normalises to TRUE under a library-generated merchant configuration), exact ledger step, clean refusal, and discharge of every input-dependent panic obligation on the honest prover path.",
       "Decides per-step facts for all inputs; histories follow by induction. Pay completeness uses the ledger hypothesis established by rule `ledger` + C17 and the digit-decomposition lemma (recorded). Not decided: RNG liveness.",
       "MIR value reconstruction + normal-form identities (completeness), interval/octagon discharge of panic obligations", "5/C04")
-claim("C06", "Every component of both verification tuples reaches the Fiat-Shamir hash or an atom of the exact acceptance relation; Context hashes its whole input; the close check covers every close-state field.",
+claim("C06", "Every component of both verification tuples reaches the Fiat-Shamir hash or an atom of the exact acceptance relation; Context hashes its whole input; the close check covers every close-state field; ChannelId::to_scalar is the full-width byte-linear embedding of the 32-byte id.",
       "Decides the structural necessary condition (dependency of acceptance on every tuple component, in the way the relation says). Not decided: the probabilistic rejection itself (2^-255 slack).",
-      "transcript reconstruction (must-reach-sink) + exact-relation membership", "5/C06")
+      "transcript reconstruction (must-reach-sink) + exact-relation membership + byte-linear form of the id encoding", "5/C06")
 claim("C10", "R_resp wiring of the provers, completeness of all four proof kinds as normal-form identities (symbolic messages, lengths, value), identical builder/proof transcripts, documented patterns as polynomial identities of the response term.",
       "Decides: verify(honest proof) == TRUE (side condition: randomisers != 0), same challenge by transcript identity. Uses the recorded digit-decomposition lemma.",
       "MIR value reconstruction + polynomial/bilinear normal-form identities", "5/C10")
 claim("C14", "Every atom of every customer message (wire-form enumeration) is a documented disclosure or masked by randomness drawn in the same call, independent of the masked secret; signatures are re-randomised before being shown; secrets never appear verbatim.",
       "Decides necessary structural conditions only. NOT decided: inequality of run-time values across sessions, hiding, zero knowledge, unlinkability.",
       "field-sensitive provenance over reconstructed terms (freshness / masking positions), who-may-construct", "5/C14")
-claim("C15", "Wire models (writer sequence, reader sequence, codec per field, try_from proxies) extracted from derive-generated and hand-written serde MIR; writer == reader; checked/unchecked twins agree; every invariant type decodes only through a validator whose Ok condition equals the invariant table; only checked leaf decoders on decode paths.",
+claim("C15", "Wire models (writer sequence, reader sequence, codec per field, try_from proxies) extracted from derive-generated and hand-written serde MIR; writer == reader; checked/unchecked twins agree in names, order and types and the validating conversion carries field i to field i; every invariant type decodes only through a validator whose Ok condition equals the invariant table; only checked leaf decoders on decode paths.",
       "Decides codec symmetry and decode-time invariants for all inputs. Trusts bls12_381's checked decoders and bincode/serde framing.",
       "sibling-agreement analysis of serializer/deserializer MIR + validator exactness by term normal forms", "5/C15")
 claim("C16", "Crate-local call-graph closure of all decode entry points: every panic source is a discharged obligation, every allocation sink has a constant / const-generic / min-bounded size, no length-prefixed std collections in wire types.",
@@ -55,6 +55,6 @@ claim("C18", "Nonce != close tag established at the single construction site for
 claim("C19", "Generators return only guarded values on every path (rejection loops summarised as value-such-that-guard), key-generation wiring equals R_keygen, decode-time validators accept generated values identically.",
       "Decides well-formedness for every randomness stream (guards hold on all paths). Not decided: loop termination, uniformity.",
       "guard/dominance facts over reconstructed terms with loop summaries + validator identities", "5/C19")
-claim("C20", "Storage of customer stages loses nothing (complete symmetric codecs over the stored type closure), refuses nothing legitimate (generators imply validators), and stage methods read no hidden state.",
+claim("C20", "Storage of customer stages loses nothing (complete symmetric codecs over the stored type closure, decode twins agreeing slot for slot and converted in place), refuses nothing legitimate (generators imply validators), and stage methods read no hidden state.",
       "Decides structural necessary conditions. NOT decided: byte-identical continuation as an executed fact.",
       "sibling-agreement of codec MIR over the stored-type closure + call-graph scan for hidden state", "5/C20")
